@@ -12,6 +12,10 @@ import (
 
 func (g *genCtx) leafProps() Doc {
 	r := g.r
+	if r.chance(1, 5) {
+		return pick(r, []Doc{DObj{{"additionalProperties", DBool(true)}}, DObj{{"unevaluatedProperties", DBool(false)}}, DObj{{"unevaluatedProperties", DBool(false)}},
+			DObj{{"unevaluatedProperties", DBool(true)}}, DObj{{"additionalProperties", DObj{{"type", DStr("integer")}}}}})
+	}
 	switch r.intn(6) {
 	case 0, 1:
 		o := DObj{}
@@ -36,6 +40,30 @@ func (g *genCtx) leafProps() Doc {
 
 func (g *genCtx) leafItems() Doc {
 	r := g.r
+	if r.chance(1, 4) {
+		// an element that is itself an array, under a subschema that evaluates ITS items: what
+		// that subschema notes about the inner array must not count for the outer one
+		inner := pick(r, []Doc{
+			DObj{{"type", DStr("array")}, {"items", DObj{{"type", DStr("integer")}}}},
+			DObj{{"prefixItems", DArr{DBool(true), DBool(true)}}},
+			DObj{{"items", DBool(true)}},
+			DObj{{"contains", DObj{{"const", DNum("1")}}}},
+			DObj{{"type", DStr("array")}, {"unevaluatedItems", DBool(true)}},
+		})
+		switch r.intn(3) {
+		case 0:
+			return DObj{{"prefixItems", DArr{inner}}}
+		case 1:
+			return DObj{{"contains", inner}}
+		default:
+			return DObj{{"prefixItems", DArr{DBool(true), inner}}}
+		}
+	}
+	if r.chance(1, 5) {
+		// a cousin that evaluates everything, or a nested unevaluatedItems that must not see its cousins
+		return pick(r, []Doc{DObj{{"items", DBool(true)}}, DObj{{"unevaluatedItems", DBool(false)}}, DObj{{"unevaluatedItems", DBool(false)}},
+			DObj{{"items", DObj{{"type", DStr("integer")}}}}, DObj{{"unevaluatedItems", DBool(true)}}})
+	}
 	switch r.intn(5) {
 	case 0, 1:
 		n := 1 + r.intn(2)
@@ -128,7 +156,7 @@ func genUnevalTemplate(r *rng, id string) *ValCase {
 			c.Insts = append(c.Insts, canonInst(o))
 		}
 	} else {
-		pool := []Doc{DNum("1"), DStr("a"), DNum("3"), DStr("x"), DNull{}}
+		pool := []Doc{DNum("1"), DStr("a"), DNum("3"), DStr("x"), DNull{}, DArr{DNum("1"), DNum("2")}, DArr{DNum("1"), DNum("2")}, DArr{DStr("a")}, DArr{}}
 		for n := 0; n < 4; n++ {
 			for k := 0; k < 5; k++ {
 				a := DArr{}
